@@ -30,7 +30,7 @@ def int_calls(p, func):
     """[(event, arg seq, base)] of int(x, base) calls in function `func`."""
     out = []
     for e in p.events:
-        if e.kind == 'ext-call' and e.data['callee'] == 'int' and e.func == func:
+        if e.kind == 'ext-call' and e.data['callee'] == 'int' and e.under(func):
             a = e.data['args']
             base = 10
             if len(a) > 1:
@@ -229,7 +229,7 @@ def check(prog, res, tier):
                     if not ok2:
                         fails.append(definite(f'format 0: from_bytes rebuilds P2 as {s2!r}, not as to_bytes does', p2[0][0].node))
             # pin slice bounds
-            sls = [ev for ev in p.events if ev.kind == 'slice' and ev.func == fb.short and ev.data['lo'] is not None
+            sls = [ev for ev in p.events if ev.kind == 'slice' and ev.under(fb.short) and ev.data['lo'] is not None
                    and ev.data['hi'] is not None and st.decide_eq0(Lin.of(ev.data['lo']) - 2) is True]
             if not sls:
                 fails.append(definite(f'{fmtname}: the PIN is not taken from offset 2 of the hex field'))
